@@ -86,6 +86,18 @@ def op_node(it: dict, path: str) -> dict:
     elif k == "ai_body":
         n["requestBody"] = {"required": True, "content": {"application/json": {"schema": {"$ref": "#/components/schemas/AsyncIteratorInfo"}}}}
         resp = JSON_OBJ
+    elif k in ("named", "typed_sibling"):
+        # "named": response (and JSON body when the method allows one) of the component schema it["schema"], plus a
+        # primitive query parameter; "typed_sibling": parameters whose annotations are the types date/datetime/bytes
+        if k == "named":
+            ptype = {"string": "string", "integer": "integer", "number": "number", "boolean": "boolean"}.get(it["schema"], "string")
+            params += [qp("q", False, ptype)]
+            resp = {"200": {"description": "ok", "content": {"application/json": {"schema": {"$ref": "#/components/schemas/" + it["schema"]}}}}}
+            if it["method"] in ("post", "put", "patch"):
+                n["requestBody"] = {"required": True, "content": {"application/json": {"schema": {"$ref": "#/components/schemas/" + it["schema"]}}}}
+        else:
+            params += [{"name": "day", "in": "query", "required": True, "schema": {"type": "string", "format": "date"}},
+                       {"name": "at", "in": "query", "required": False, "schema": {"type": "string", "format": "date-time"}}]
     elif k == "body":
         n["requestBody"] = {"required": True, "content": {"application/json": {"schema": {"$ref": "#/components/schemas/Item"}}}}
         resp = JSON_OBJ
@@ -95,27 +107,55 @@ def op_node(it: dict, path: str) -> dict:
     return n
 
 
+def case_schemas(case: dict) -> dict:
+    sch = dict(SCHEMAS)
+    for p in case["paths"]:
+        for it in p["items"]:
+            if it.get("schema"):
+                sch.setdefault(it["schema"], {"type": "object", "properties": {"a": {"type": "string"}}})
+    return sch
+
+
 def case_spec(case: dict) -> dict:
     paths: dict[str, Any] = {}
     for p in case["paths"]:
         paths[p["path"]] = {it["method"]: op_node(it, p["path"]) for it in p["items"]}
-    return base_spec(paths, SCHEMAS)
+    return base_spec(paths, case_schemas(case))
 
 
 # ---------------------------------------------------------------- driver (fresh interpreter, generator blocked)
 DRIVER = r"""
 import importlib, inspect, asyncio, os
-def ann(a):
-    return a if isinstance(a, str) else inspect.formatannotation(a)
+import typing
+def ann(a, owner):
+    # the annotation as the RESOLVED object, named by module + qualified name
+    if isinstance(a, str):
+        return 'unresolved-string:' + a
+    if inspect.isfunction(a):
+        # a method of the same class shadowed a type name in the class body: name it without the class
+        return '<method %s used as annotation>' % a.__name__
+    if isinstance(a, type):
+        return a.__module__ + '.' + a.__qualname__
+    return inspect.formatannotation(a)
 def surf(cls):
     out = {}
     for n, f in vars(cls).items():
         if n.startswith('__') or not inspect.isfunction(f):
             continue
         sig = inspect.signature(f)
-        params = [[p.name, p.kind.name, None if p.default is p.empty else repr(p.default),
-                   None if p.annotation is p.empty else ann(p.annotation)] for p in sig.parameters.values()]
-        ret = None if sig.return_annotation is sig.empty else ann(sig.return_annotation)
+        try:
+            hints = typing.get_type_hints(f)      # resolves quoted / forward-reference annotations in the module
+        except BaseException as e:
+            hints = {'__error__': type(e).__name__ + ': ' + str(e)[:80]}
+        def res(name, raw):
+            if raw is inspect.Signature.empty:
+                return None
+            if '__error__' in hints:
+                return ann(raw, cls) + ' [' + hints['__error__'] + ']'
+            return ann(hints.get(name, raw), cls)
+        params = [[p.name, p.kind.name, None if p.default is p.empty else repr(p.default), res(p.name, p.annotation)]
+                  for p in sig.parameters.values()]
+        ret = res('return', sig.return_annotation)
         if inspect.isasyncgenfunction(f): nature = 'asyncgen'
         elif inspect.iscoroutinefunction(f): nature = 'coroutine'
         elif ret and 'AsyncIterator' in ret: nature = 'def->AsyncIterator'
@@ -409,15 +449,13 @@ KIND_SCHEMAS = {"params": ["Item"], "manyopt": ["Item"], "ndjson": ["Item"], "ov
 
 
 def schema_class_names(case: dict) -> list[str]:
-    """class names (real sanitize_class_name) of the component schemas the case's operations refer to"""
-    from pyopenapi_gen.core.utils import NameSanitizer as NS
+    """raw names of the component schemas the case's operations refer to (guard F13e looks at them)"""
     names: list[str] = []
     for p in case["paths"]:
         for it in p["items"]:
-            for sname in KIND_SCHEMAS.get(it.get("kind", "plain"), []):
-                cn = NS.sanitize_class_name(sname)
-                if cn not in names:
-                    names.append(cn)
+            for sname in KIND_SCHEMAS.get(it.get("kind", "plain"), []) + ([it["schema"]] if it.get("schema") else []):
+                if sname not in names:
+                    names.append(sname)
     return names
 
 
@@ -494,8 +532,41 @@ def shared_tag_case(rng) -> dict:
             "paths": [{"path": p, "items": its} for p, its in by_path.items()]}
 
 
+# names that the generated endpoint / mock modules import themselves (core exceptions, typing, helpers), names equal to
+# the tag's module, and names of primitive types: a component schema may be called any of these
+CLASH_SCHEMAS = ["ClientError", "ServerError", "NotFoundError", "HTTPError", "Any", "List", "Optional", "Callable", "Dict",
+                 "NoReturn", "IO", "Literal", "Protocol", "HttpTransport", "DataclassSerializer", "Users", "T", "date", "datetime"]
+PRIMITIVE_SCHEMAS = ["string", "integer", "boolean"]          # finding F13e
+TYPE_OPIDS = ["date", "datetime"]                             # method names equal to a type used in annotations
+
+
+def name_clash_case(rng) -> dict:
+    """one tag; operations returning / taking component schemas whose names collide with imported names, and operations whose
+    METHOD name is a type name (date, datetime) next to a sibling that uses that type in a parameter — both declaration
+    orders, and both alphabetical orders of the sibling's name"""
+    tag = rng.choice([["Users"], ["t"], None, ["events"]])
+    names = rng.sample(CLASH_SCHEMAS, rng.randint(1, 3)) + ([rng.choice(PRIMITIVE_SCHEMAS)] if rng.random() < 0.25 else [])
+    items_by_path: dict[str, list] = {}
+    slots = [(p, m) for p in ["/c", "/c/{id}", "/e"] for m in ["get", "post", "put", "delete"]]
+    rng.shuffle(slots)
+    ops = [{"opid": f"op{i}{nm}", "kind": "named", "schema": nm} for i, nm in enumerate(names)]
+    if rng.random() < 0.7:
+        t = rng.choice(TYPE_OPIDS)
+        sib = {"opid": rng.choice(["eventsOn", "aaEvents", "zzEvents"]), "kind": "typed_sibling"}
+        typed = {"opid": t, "kind": "plain"}
+        ops += [sib, typed] if rng.random() < 0.5 else [typed, sib]
+    rng.shuffle(ops) if rng.random() < 0.3 else None
+    # keep declaration order = order in `ops`: one path per operation keeps dict order = spec order
+    out_paths = []
+    for i, o in enumerate(ops):
+        m = rng.choice(["get", "post", "put"]) if o["kind"] == "named" else "get"
+        out_paths.append({"path": f"/p{i}", "items": [{"method": m, "opid": o["opid"], "tags": tag, "kind": o["kind"],
+                                                      **({"schema": o["schema"]} if "schema" in o else {})}]})
+    return {"strategy": "operationId", "render": "json", "paths": out_paths}
+
+
 # ---------------------------------------------------------------- entry
-GUARDS: dict[int, str] = {}   # F13a, F13b, F13c and F01e are fixed: any oracle failure is a violation
+GUARDS: dict[int, str] = {1: "F13e"}   # F13a, F13b, F13c and F01e are fixed
 
 
 def main(chk: Check, replay: dict | None = None) -> int:
@@ -513,6 +584,7 @@ def main(chk: Check, replay: dict | None = None) -> int:
     n = 300 if chk.thorough else 36
     inputs += [gen_case(rng) for _ in range(n)] + [uniform_case(rng) for _ in range(n // 2)]
     inputs += [shared_tag_case(rng) for _ in range(n // 3)]
+    inputs += [name_clash_case(rng) for _ in range(max(6, n // 3))]
     for _ in range(max(2, n // 9)):      # F13c stream: a uniform single-tag case with one AsyncIteratorInfo operation
         c = uniform_case(rng)
         if not c["paths"][0]["items"]:
